@@ -283,12 +283,96 @@ def k8(ctx, rid):
     c07.h6d(ctx, rid)
 
 
+def k9(ctx, rid):
+    import props.c05 as c05
+    c05.v7(ctx, rid)
+
+
+def k10(ctx, rid):
+    """a read that the file cannot satisfy is reported by the io layer as UnexpectedEof and nothing else: the recovery
+    classification (`into_bincode_if_unexpected_eof`) turns exactly that kind into a quarantine-class error.  An io::Error of
+    another kind constructed on a read path (e.g. InvalidInput for "offset beyond the file") escapes the classification: a blob
+    cut inside its tail record makes init fail instead of being quarantined."""
+    prog = ctx.prog
+    n = 0
+    bad = 0
+    for f in prog.fns.values():
+        if not f.file.startswith('src/io/'):
+            continue
+        root = prog.fns[f.id].root
+        if 'read' not in root.split('::')[-1]:
+            continue
+        if f.id == root:
+            n += 1
+        for c in f.calls:
+            if c.path.startswith('std::io::Error') and c.name in ('new', 'other', 'from') and c.bb in f.reachable():
+                kinds = [o.data.get('variant') for o in core.origins(f, c.args[0]) if o.kind == 'agg' and o.data.get('adt') == 'std::io::ErrorKind'] if c.args else []
+                if kinds and all(k == 'UnexpectedEof' for k in kinds):
+                    ctx.ok(rid, 'read-error-kind|%s' % root, c.where(), 'UnexpectedEof')
+                else:
+                    bad += 1
+                    ctx.bad(rid, 'read-error-kind|%s' % root, c.where(), 'the read wrapper `%s` constructs an io::Error of kind %s: the open path classifies only UnexpectedEof as "file cut short" (quarantine); with this kind a blob cut by a power loss makes Storage::init fail' % (root.split('::')[-1], kinds or c.name))
+    if n < 3:
+        raise core.AnchorLost('read wrappers of the io layer: %d' % n)
+    if not bad:
+        ctx.ok(rid, 'read-error-kind|scan', '', '%d read wrappers construct no io::Error of their own (std reports short reads as UnexpectedEof)' % n, nontrivial=False, queries=n)
+
+
+def k11(ctx, rid):
+    """Blob::from_file scans the blob (and thereby validates / quarantines a torn tail) whenever the file holds anything beyond
+    the blob header: the guard of the scan compares the file size with the blob header size alone.  Slack such as "at least one
+    minimal record" lets a blob whose first record is torn become the active blob again; later writes land behind the torn bytes
+    and are lost with the next index regeneration."""
+    prog = ctx.prog
+    n = 0
+    for f in prog.fns.values():
+        if not f.id.endswith('Blob::<K>::from_file::{closure#0}'):
+            continue
+        regs = [c for c in f.calls if c.name == 'try_regenerate_index' and c.bb in f.reachable()]
+        if not regs:
+            continue
+        can = set(i for i in f.reachable() if any(c.bb in f.reach_from([i]) for c in regs))
+        for i in sorted(can):
+            t = f.blocks[i]['t']
+            if t['k'] != 'switch' or any(a.switch_bb == i for a in f.awaits()):
+                continue
+            outs = [tg for _, tg in t['vals']] + [t['otherwise']]
+            outs = [x for x in outs if x is not None and f.blocks[x]['t']['k'] != 'unreachable']
+            if not (any(x not in can for x in outs) and any(x in can for x in outs)):
+                continue
+            sites = []
+            lv = core.scalar_leaves(prog, f, t['o'], sites=sites)
+            if ('call', 'serialized_size') not in lv:
+                continue
+            n += 1
+            key = 'scan-unless-header-only|%s' % prog.fns[f.id].root
+            sizes = {x for x in sites if x[0] == 'serialized_size'}
+            extra = {x for x in lv if x[0] in ('const', 'field', 'arg') and x[1] not in (0, '0')}
+            if len(sizes) == 1 and not extra:
+                ctx.ok(rid, key, f.where(i), 'the scan is skipped only when the file size does not exceed the blob header size')
+            else:
+                ctx.bad(rid, key, f.where(i), 'the guard of the start-up scan adds slack to the blob header size (%s): a file that holds a torn first record is not scanned, not quarantined, and becomes the active blob with garbage in front of every later record' % sorted(str(x) for x in (extra or sizes)))
+    if n < 1:
+        raise core.AnchorLost('guard of try_regenerate_index in Blob::from_file: %d' % n)
+
+
+def k12(ctx, rid):
+    """what a dropped close() / a crash during the index dump leaves behind (an empty or cut index file) never fails the next
+    start (C03.I10 instance)"""
+    import props.c03 as c03
+    c03.i10(ctx, rid)
+
+
 RULES = [
     Rule('C06.K1', 'every blob-file read / decode in the open path is converted to a quarantine-class error before `?`', k1, 6),
     Rule('C06.K2', 'the sequential scan accepts a header only after comparing the end of its extent with the file size and stops only at the exact end of file', k2, 2),
     Rule('C06.K4', 'quarantine is a byte-preserving rename (C07.H7 instance)', k4, 1),
     Rule('C06.K5', 'init promotes an existing blob to active only when one was opened; otherwise a fresh blob is created', k5, 1),
     Rule('C06.K6', 'explicit validation errors of the scan are constructed in a quarantine class', k6, 4),
+    Rule('C06.K9', 'the recovery scan locates record data after header and meta (C05.V7 instances)', k9, 1),
+    Rule('C06.K10', 'read wrappers of the io layer report unsatisfiable reads only as UnexpectedEof', k10, 1),
+    Rule('C06.K11', 'Blob::from_file scans whenever the file exceeds the blob header (no slack in the guard)', k11, 1),
+    Rule('C06.K12', 'a short (empty / cut) index file left by an interrupted dump is regenerated at the next start (C03.I10 instance)', k12, 1),
     Rule('C06.K8', 'the id of every blob that failed to open (ignored or quarantined) is never reused (C07.H6/H6d instances)', k8, 4),
     Rule('C06.K7', 'a torn or stale index file is never trusted: gate tests every header fact (blob size by equality), the file extent, and the written flag is set in a second phase (C03.I2/I5/I8 instances)', k7, 8),
 ]
